@@ -509,5 +509,5 @@ func exec(c *core.Ctx, cs Case) {
 	if both && removedPair {
 		c.Nontrivial() // an Add that evicted two different pairs, and a removal of an existing pair
 	}
-	c.Emit(fmt.Sprintf("Case %s %s %s [%s]", zList(univ), z(nilLen), initObs, strings.Join(steps, ";\n ")))
+	c.Emit(fmt.Sprintf("Case %s %s %s [%s]", zList(univ), z(nilLen), initObs, strings.Join(steps, "; ")))
 }
